@@ -26,6 +26,7 @@ from .report import Ctx
 from .rules_C01 import polarity
 from .shared_rules import contextvar_table
 from .srcmodel import AnalysisError, FuncNode, call_leaf, call_name, calls_in, const_str, contains, dotted, enclosing_function, func_params, get_kwarg, qualname, src, walk_local
+from .util import handler_type_names as handler_names
 from .util import enclosing_trys, enclosing_withs, guard_chain, root_name
 
 UNSCOPED_EXPECTED = {"parse_kwargs", "subclass_arg_parser", "dump_kwargs"}
@@ -239,6 +240,37 @@ def run(ctx: Ctx) -> int:
         ok = bool(dcalls) and ge.dominates(ge.cn(dcalls), ge.cn(leaving)) and all(c.args and root_name(c.args[0]) == "self" for c in dcalls)
         ctx.oblige("C09.b", ok, dcalls[0] if dcalls else err, f"every reported parse error first discards a pending `{a}` request (walking up to the root parser)" if ok else f"a parse error leaves a pending `{a}` request on the parser: the next successful parse prints the configuration and exits", fn=err, construct=f"discard {a} on error")
 
+        # ... and whenever an action ENDS the parse by exiting (--help, --version, --print_shtab run inside argparse's
+        # _parse_known_args): the call is under a handler for SystemExit that discards the request and re-raises
+        # (F50: after parse_args(['--print_config', '--help']) the next parse printed the config and exited)
+        pka = ctx.func("_core:ArgumentParser.parse_known_args")
+        inner_calls = [c for c in calls_in(pka) if call_leaf(c) == "_parse_known_args"]
+        ctx.need(inner_calls, "parse_known_args: self._parse_known_args(...)")
+        for c in inner_calls:
+            hs_ = [h for t, part in enclosing_trys(c) if part == "body" for h in t.handlers if h.type is None or set(handler_names(h)) & {"SystemExit", "BaseException"}]
+            good_h = [h for h in hs_ if any(call_leaf(x) in discarders and x.args and root_name(x.args[0]) == "self" for x in calls_in(h)) and any(isinstance(r, ast.Raise) and r.exc is None for r in ast.walk(h))]
+            ok = bool(good_h)
+            ctx.oblige("C09.b", ok, good_h[0] if good_h else c, f"an exiting action inside the argument loop first discards a pending `{a}` request" if ok else f"an action that exits inside the argument loop (--help, --version) leaves a pending `{a}` request on the parser: after parse_args(['--print_config', '--help']) the next successful parse prints the configuration and exits", fn=pka, construct=f"discard {a} on exit from the argument loop")
+
+        # a parse method called, while a parse is running, on the parser THAT WAS HANDED IN (the one that may hold the
+        # pending request) must not serve the request: such calls run under skip_print_config()
+        # (F51: --print_config before --cfg printed the file's content alone from inside apply_config)
+        n_nested = 0
+        for fq, fn in repo.all_funcs():
+            if fq.startswith(("_deprecated:", "_cli:", "_core:")):
+                continue
+            params_ = set(func_params(fn))
+            for c in calls_in(fn):
+                if call_leaf(c) not in ("parse_path", "parse_string", "parse_object", "parse_env") or not isinstance(c.func, ast.Attribute) or not isinstance(c.func.value, ast.Name):
+                    continue
+                recv = c.func.value.id
+                if recv not in params_ or any(isinstance(s_, ast.Assign) and any(isinstance(t, ast.Name) and t.id == recv for t in s_.targets) for s_ in walk_local(fn)):
+                    continue
+                n_nested += 1
+                ok = any(isinstance(it.context_expr, ast.Call) and call_leaf(it.context_expr) == "skip_print_config" for _w, it in enclosing_withs(c, fn))
+                ctx.oblige("C09.b", ok, c, f"`{src(c, 40)}` on the handed-in parser cannot serve a pending `{a}` request" if ok else f"`{src(c, 50)}` parses with the parser that may hold a pending `{a}` request, outside skip_print_config(): with --print_config BEFORE --cfg the nested parse prints the file's content alone and exits - later arguments and the defaults are never applied", fn=fn, construct="nested parse on the handed-in parser")
+        ctx.floor("C09.b-nested-parses", n_nested, 2)
+
         # every walk along parent_parser that handles the flag advances unconditionally and its loop
         # condition does not depend on the flag (the request lives on the root parser only)
         for fq, fn in repo.all_funcs():
@@ -397,6 +429,32 @@ def run(ctx: Ctx) -> int:
     ctx.oblige("C09.e", ok, adds[0] if adds else hc, "the lazily added --print_shtab action is added at most once" if ok else "--print_shtab can be added on every parse", fn=hc)
 
     ctx.trusted_base += ["argparse dispatches to Action.__call__ and to the _parse_optional hook only from inside _parse_known_args"]
+    # ---------------- C09.f the yaml customisation stays private to the library's classes ----------------------------
+    # remove_implicit_resolver copies the class's resolver table SHALLOWLY: the lists inside are still the ones of
+    # PyYAML's own Resolver / SafeLoader / SafeDumper.  The lists must therefore be replaced (every entry rebound to
+    # a new list), never edited in place - an in-place edit removes the resolver from PyYAML's classes and from the
+    # library's dumper as well, and what a dump writes then depends on whether any yaml text was loaded before
+    rir = ctx.func("_loaders_dumpers:remove_implicit_resolver")
+    MUT = {"append", "remove", "pop", "clear", "extend", "insert", "sort", "reverse", "__setitem__", "__delitem__", "__iadd__"}
+    loops_r = [l for l in walk_local(rir) if isinstance(l, ast.For) and "yaml_implicit_resolvers" in ast.unparse(l.iter)]
+    ctx.need(loops_r, "remove_implicit_resolver: loop over cls.yaml_implicit_resolvers")
+    for l in loops_r:
+        tnames = [n_.id for n_ in ast.walk(l.target) if isinstance(n_, ast.Name)]
+        leaf_ = call_leaf(l.iter) if isinstance(l.iter, ast.Call) else None
+        inner = set(tnames[-1:]) if leaf_ in ("items", "values") else set()
+        bad = []
+        for n_ in ast.walk(l):
+            if isinstance(n_, (ast.Assign, ast.AugAssign, ast.Delete)):
+                tg = n_.targets if not isinstance(n_, ast.AugAssign) else [n_.target]
+                bad += [n_ for t in tg if (isinstance(t, ast.Subscript) and root_name(t) in inner) or (isinstance(n_, ast.AugAssign) and isinstance(t, ast.Name) and t.id in inner)]
+            if isinstance(n_, ast.Call) and isinstance(n_.func, ast.Attribute) and n_.func.attr in MUT and root_name(n_.func) in inner:
+                bad.append(n_)
+        ok = not bad
+        ctx.oblige("C09.f", ok, bad[0] if bad else l, "the shared resolver lists are not edited in place" if ok else f"`{src(bad[0], 60)}` edits a resolver list in place: after the shallow copy of the table these lists still belong to PyYAML's Resolver and to the library's dumper - the timestamp resolver disappears there too, and the same dump writes '2024-01-01' quoted before and unquoted after an unrelated parse", fn=rir)
+        rebinds = [s_ for s_ in l.body if isinstance(s_, ast.Assign) and isinstance(s_.targets[0], ast.Subscript) and "yaml_implicit_resolvers" in ast.unparse(s_.targets[0].value) and isinstance(s_.value, (ast.ListComp, ast.List)) or (isinstance(s_, ast.Assign) and isinstance(s_.value, ast.Call) and call_leaf(s_.value) == "list")]
+        ok = bool(rebinds) and isinstance(l.iter, ast.Call) and not l.iter.args
+        ctx.oblige("C09.f", ok, rebinds[0] if rebinds else l, "every entry of the table is rebound to a new list (later add_implicit_resolver calls append to private lists)" if ok else "not every entry of the resolver table is replaced by a new list: PyYAML's add_implicit_resolver appends to the lists it finds - the library's float resolver would be added to PyYAML's own classes", fn=rir)
+
     return ctx.finish(
         explanation=(
             "State carried between calls, checked on every path: all ContextVar.set sites are enumerated and classified (scoped with reset in a finally covering the yield, via CFG must-pass "
